@@ -131,6 +131,18 @@ def _nt_c19(ev):
     return (k, ev["y"], ev["m"], ev["d"]) if (ev["d"] == 1 or ev["d"] >= 28) else None
 
 
+def _computus_apa(tier):
+    """symbolic complement (Apalache, unbounded years): Islamic arithmetic calendar by induction, tabular Easter range/Sunday"""
+    A = [Apa("Apa_Computus", "IslBase", "IslInd", 0, note="1 Muharram AH 1 satisfies the closed form"),
+         Apa("Apa_Computus", "IslIndInit", "IslInd", 1, note="IslNext preserves jdn = IslJDN(y, m, d) from any valid date of any year >= 1 AH"),
+         Apa("Apa_Computus", "EasterInit", "EasterRange", 0, note="tabular Easter lies in 22 March..25 April for every year >= -4712")]
+    if tier == "thorough":
+        A += [Apa("Apa_Computus", "IslIndInit", "IslCycle", 0, note="30 Islamic years = 10631 days, every year"),
+              Apa("Apa_Computus", "IslIndInit", "IslYearLen", 0, note="consecutive new years are 354 / 355 days apart, every year"),
+              Apa("Apa_Computus", "EasterGregInit", "EasterSunday", 0, note="tabular Gregorian Easter is a Sunday for every year >= 1583")]
+    return A
+
+
 def plan_C19(tier, seed):
     rng = random.Random(seed)
     mc = [MC("MC_Computus", "MC_Computus.cfg", workers=4, heap="2g",
@@ -158,7 +170,7 @@ def plan_C19(tier, seed):
     sh += [Shard("m2g_%04d_%04d" % (a, b), drv_computus.gen_m2g, dict(h0=a, h1=b), *T) for (a, b) in hw]
     sh += [Shard("g2m_%04d_%04d" % (a, b), drv_computus.gen_g2m, dict(y0=a, y1=b), *T) for (a, b) in cw]
     return dict(
-        mc=mc, shards=sh, level="model_checking", exhaustive=(tier == "thorough"), nontrivial=_nt_c19,
+        mc=mc + _computus_apa(tier), shards=sh, level="model_checking", exhaustive=(tier == "thorough"), nontrivial=_nt_c19,
         rule="TLC checks the tabular-epact Easter definition against the Meeus recipe for every year -4712..10000, the "
              "arithmetic Hebrew calendar laws for civil years 1..3000 and the Islamic day chain AH 1..2500 against its closed "
              "forms (with published anchors). Conformance: Epoch.easter for every year -4712..10000 and jewish_pesach for "
